@@ -28,17 +28,18 @@ func c11Source(t *testing.T, v Version, user string) ([]byte, Reference, error) 
 	}
 	root, a, b, c, s1, s2, leaf := w.Alloc(), w.Alloc(), w.Alloc(), w.Alloc(), w.Alloc(), w.Alloc(), w.Alloc()
 	missing := w.Alloc()
+	s3, s4, globals, cryptName := w.Alloc(), w.Alloc(), w.Alloc(), w.Alloc()
 	must := func(err error) {
 		if err != nil {
 			t.Fatalf("harness: %v", err)
 		}
 	}
 	must(w.Put(leaf, String("shared leaf \x00\xff")))
-	must(w.Put(root, Dict{"A": a, "B": b, "Again": a, "Empty": Array{}, "EmptyD": Dict{}, "Null": nil, "Nested": Array{nil, Array{}, Dict{"X": nil}, leaf, Integer(-1), Real(0.5), Name("n m"), Boolean(true)}, "S1": s1, "S2": s2, "Missing": missing}))
+	must(w.Put(root, Dict{"A": a, "B": b, "Again": a, "Empty": Array{}, "EmptyD": Dict{}, "Null": nil, "Nested": Array{nil, Array{}, Dict{"X": nil}, leaf, Integer(-1), Real(0.5), Name("n m"), Boolean(true)}, "S1": s1, "S2": s2, "S3": s3, "S4": s4, "Missing": missing}))
 	must(w.Put(a, Array{b, c, leaf, a})) // cycle through a itself
 	must(w.Put(b, Dict{"Back": root, "C": c, "Leaf": leaf}))
 	must(w.Put(c, Array{Array{Array{leaf}}, String(""), Name("")}))
-	sw, err := w.OpenStream(s1, Dict{"Ref": leaf}, FilterFlate{})
+	sw, err := w.OpenStream(s1, Dict{"Ref": leaf, "Desc": String("a string in a stream dictionary"), "Params": Dict{"ModDate": String("D:20200101"), "CheckSum": String("\x00\x01\xfe\xff")}}, FilterFlate{})
 	must(err)
 	sw.Write(bytes.Repeat([]byte("stream one "), 300))
 	must(sw.Close())
@@ -46,8 +47,37 @@ func c11Source(t *testing.T, v Version, user string) ([]byte, Reference, error) 
 	must(err)
 	sw.Write([]byte("two\n"))
 	must(sw.Close())
+	// a stream whose /DecodeParms holds an indirect reference (as JBIG2 images do)
+	must(w.Put(cryptName, Name("Crypt")))
+	sw, err = w.OpenStream(globals, Dict{}, FilterFlate{})
+	must(err)
+	sw.Write([]byte("globals segment data"))
+	must(sw.Close())
+	sw, err = w.OpenStream(s3, Dict{"Filter": Name("JBIG2Decode"), "DecodeParms": Dict{"JBIG2Globals": globals, "Extra": Array{leaf}}})
+	must(err)
+	sw.Write([]byte("not really JBIG2 data"))
+	must(sw.Close())
+	// a stream that opts out of encryption with an Identity crypt filter
+	if v >= V1_5 {
+		sw, err = w.OpenStream(s4, Dict{"Type": Name("Quir:Test")}, FilterCryptIdentity{}, FilterFlate{})
+		must(err)
+		sw.Write(bytes.Repeat([]byte("stored as plaintext "), 60))
+		must(sw.Close())
+	}
 	must(w.Close())
-	return buf.Bytes(), root, nil
+	data := buf.Bytes()
+	if user != "" && v >= V1_5 {
+		// the first element of the /Filter array becomes an indirect reference to the name
+		// /Crypt (same width, so no offset changes)
+		direct := []byte("/Filter[/Crypt/FlateDecode]")
+		indirect := []byte(fmt.Sprintf("/Filter[%-6s/FlateDecode]", fmt.Sprintf("%d %d R", cryptName.Number(), cryptName.Generation())))
+		if len(direct) == len(indirect) && bytes.Count(data, direct) == 1 {
+			data = bytes.Replace(data, direct, indirect, 1)
+		} else {
+			t.Errorf("B2-FAIL harness: cannot patch the /Filter array of the identity-crypt stream")
+		}
+	}
+	return data, root, nil
 }
 
 // c11Iso walks both graphs in lock step.
@@ -143,9 +173,40 @@ func (m *c11Iso) cmp(path string, a, b Object, depth int) {
 				dy[k] = v
 			}
 		}
+		// the copier may inline references in /Filter and /DecodeParms at the top and at the
+		// array-element level (documented); compare those entries after resolving both sides
+		inline := func(g Getter, v Object) Object {
+			if r, ok := v.(Reference); ok {
+				v, _ = g.Get(r, true)
+			}
+			if arr, ok := v.(Array); ok {
+				out := make(Array, len(arr))
+				for i, e := range arr {
+					if r, ok := e.(Reference); ok {
+						e, _ = g.Get(r, true)
+					}
+					out[i] = e
+				}
+				return out
+			}
+			return v
+		}
+		for _, k := range []Name{"Filter", "DecodeParms"} {
+			if v, ok := dx[k]; ok {
+				dx[k] = inline(m.src, v)
+			}
+			if v, ok := dy[k]; ok {
+				dy[k] = inline(m.dst, v)
+			}
+		}
 		m.cmp(path+"<dict>", dx, dy, depth+1)
 		ra, ea := DecodeStream(m.src, nil, x)
 		rb, eb := DecodeStream(m.dst, nil, y)
+		if ea != nil && eb != nil {
+			// not decodable on either side (the pseudo JBIG2 stream): compare the stored bytes
+			ra, ea = RawStreamReader(m.src, x)
+			rb, eb = RawStreamReader(m.dst, y)
+		}
 		if ea != nil || eb != nil {
 			m.fail("stream", "%s: decode %v / %v", path, ea, eb)
 			return
@@ -173,7 +234,7 @@ func TestB2C11Copier(t *testing.T) {
 		v   Version
 		pwd string
 	}
-	encs := []enc{{V1_7, ""}, {V1_4, "secret"}, {V2_0, "other"}}
+	encs := []enc{{V1_7, ""}, {V1_4, "secret"}, {V1_6, "aes128"}, {V2_0, "other"}}
 	for _, se := range encs {
 		for _, de := range encs {
 			cases++
